@@ -17,6 +17,24 @@ HOST = "x86_64-unknown-linux-gnu"
 
 import plan  # noqa: E402  (the per-property workload plan)
 
+# Validation runs (seeded changes, cross-talk matrix) may point the machinery at a scratch copy of
+# the repository instead of /repo: FIV_REPO=<dir>. The registered checks never set it.
+ALT_REPO = os.environ.get("FIV_REPO")
+if ALT_REPO:
+    tag = hashlib.sha1(ALT_REPO.encode()).hexdigest()[:10]
+    ALT = os.path.join(os.environ.get("FIV_ALT_DIR", "/tmp"), f"fiv-alt-{tag}")
+    for sub in ("harness", "probes"):
+        dst = os.path.join(ALT, sub)
+        shutil.rmtree(dst, ignore_errors=True)
+        shutil.copytree(os.path.join(VERIF, sub), dst, ignore=shutil.ignore_patterns("target"))
+        ct = os.path.join(dst, "Cargo.toml")
+        open(ct, "w").write(open(ct).read().replace('path = "/repo"', f'path = "{ALT_REPO}"'))
+    HARNESS = os.path.join(ALT, "harness")
+    TARGET = os.path.join(ALT, "target")
+    WORK = os.path.join(ALT, "work")
+    REPLAYS = os.path.join(ALT, "replays")
+    EVIDENCE = os.path.join(ALT, "evidence")
+
 
 def log(*a):
     print(*a, file=sys.stderr, flush=True)
@@ -318,6 +336,12 @@ def check_property(prop, tier, seed):
                 continue
             # sanitizer / interpreter reports
             real_reps = [x for x in reps if x[0] != "miri-unsupported"]
+            # an abandoned (forgotten) history leaks on purpose: a leak report next to a failed
+            # predicate of another property is a consequence of that failure, not a finding
+            if real_reps and all(x[0] in ("miri-leak", "lsan") for x in real_reps) and ("NOTE other-property" in text or "VIOLATION property=" in text):
+                notes.append(f"leak report ignored in {r.name}: history abandoned after a predicate failure")
+                real_reps = []
+                reps = []
             if real_reps:
                 leginfo["reports"] += len(real_reps)
                 frame = first_repo_frame(text)
